@@ -4,13 +4,13 @@ import math
 import numpy as np
 
 RULE = ("K: (a) fdtdx.TanhProjection.__call__ (and tanh_projection directly) for EVERY (beta, eta) of the grid "
-        "beta in {0, 1e-300, 1e-8, 1e-3, 0.1, 1, 8, 64, 1e3, 1e6, 1e300, inf} x eta in {0, 0.05, 0.25, 0.5, 0.75, 1, random} "
+        "beta in {0, 1e-290, 1e-8, 1e-3, 0.1, 1, 8, 64, 1e3, 1e6, 1e300, inf} x eta in {0, 0.05, 0.25, 0.5, 0.75, 1, random} "
         "on arrays mixing random values of [0,1] with the special points 0, 1, eta, eta +- 1 ulp, values outside [0,1]; "
         "3-D shapes, one or two keys, beta as Python float or jnp scalar; values compared with the model at 1e-9 "
         "(absolute on O(1) data; XLA's and libm's tanh differ by a few ulp, quotient is well conditioned because dividend and "
         "divisor carry only relative ulp errors); safe_beta/divisor/dividend compared through the formula on extra points. "
         "(b) fdtdx.SubpixelSmoothedProjection.__call__ on n x m designs (2..7 per axis), singleton axis in every position, "
-        "voxel sizes 20 nm .. 1 um, fields = uniform / ramps / smooth waves / random (cells with and without an interface, "
+        "voxel sizes 20 nm .. 1 um, fields = uniform / ramps / smooth waves / half-flat / nearly flat (gradient 1e-13, 1e-20, 1e-80: d/R overflows when raised to the 4th power) / random (cells with and without an interface, "
         "counted by an independent numpy mask), same beta/eta families; compared with the model at 1e-9 except cells whose "
         "interface distance is within 1e-9 relative of the smoothing radius (branch decision at round-off; counted). "
         "Error glue: no singleton axis, unequal voxel sizes, missing beta, axis shorter than 2. "
@@ -19,9 +19,10 @@ RULE = ("K: (a) fdtdx.TanhProjection.__call__ (and tanh_projection directly) for
         "cells without interface, jax.grad w.r.t. x / beta / eta finite (binary64 and float32). "
         "non-trivial = beta in {0, inf} or eta in {0, 1} or a cell that needs smoothing.")
 
-BETAS = [0.0, 1e-300, 1e-8, 1e-3, 0.1, 1.0, 8.0, 64.0, 1e3, 1e6, 1e300, math.inf]
+BETAS = [0.0, 1e-290, 1e-8, 1e-3, 0.1, 1.0, 8.0, 64.0, 1e3, 1e6, 1e300, math.inf]
 ETAS = [0.0, 0.05, 0.25, 0.5, 0.75, 1.0]
 C055 = 0.55
+SUBNORMAL_SIG = "beta-below-smallest-normal"
 _J = None
 
 
@@ -103,7 +104,7 @@ def _grad_fn(which, dtype):
 
 def moderate(beta):
     """betas for which the derivative w.r.t. beta / eta is also required finite: the formula's d/dbeta carries
-    dividend/divisor**2 ~ 1/beta, which leaves binary64/float32 for absurdly small beta (1e-300) by overflow of
+    dividend/divisor**2 ~ 1/beta, which leaves binary64/float32 for absurdly small beta (1e-290) by overflow of
     an intermediate; the property's 'finite gradients' is read as: w.r.t. the design for every beta, w.r.t.
     beta/eta for beta in {0} u [1e-3, 1e6] u {inf}"""
     return beta == 0 or math.isinf(beta) or 1e-3 <= beta <= 1e6
@@ -258,10 +259,15 @@ def gen_field(rng, n, m, kind):
         f = np.full((n, m), 0.2)
         f[n // 2:, :] = 0.2 + 0.15 * (i[n // 2:, :] - n // 2 + 1)
         return np.clip(f, 0, 1)
+    if kind == "nearflat":          # tiny non-zero gradients: no interface, but d/R is astronomically large
+        # (d/R)**4 leaves float32 for amplitude 1e-20 and binary64 for 1e-80: the masked-out polynomial must not
+        # poison the gradient
+        base, amp = rng.choice([(0.3, 1e-13), (0.0, 1e-20), (0.0, 1e-80)])
+        return base + amp * np.array([[rng.random() for _ in range(m)] for _ in range(n)])
     return np.array([[rng.random() for _ in range(m)] for _ in range(n)])
 
 
-FIELD_KINDS = ["uniform", "ramp", "wave", "halfflat", "random"]
+FIELD_KINDS = ["uniform", "ramp", "wave", "halfflat", "nearflat", "random"]
 VOXELS = [20e-9, 50e-9, 3.3e-7, 1e-6]
 
 
@@ -341,6 +347,16 @@ def run(ctx):
         ctx.case(op="parts", beta=repr(beta))
         B.ask(f"parts {f2h(beta)} {f2h(0.5)} {f2h(0.5)}",
               lambda rep, beta=beta: ctx.expect_equal("parts", {"op": "tanh", "beta": beta, "eta": 0.5, "xs": [0.5]}, 1.0, h2fs(rep)[0]))
+
+    # (a'') betas below the smallest normal binary64 number: XLA flushes beta*eta to zero and the formula is 0/0
+    for beta in (1e-310,):
+        xs = [0.0, 0.3, 0.5, 1.0]
+        y = impl_tanh(beta, 0.5, np.asarray(xs).reshape(4, 1, 1)).ravel()
+        ctx.case(op="subnormal-beta")
+        ctx.impl_property_evals += 1
+        if not np.all(np.isfinite(y)):
+            ctx.violation({"op": "tanh", "beta": beta, "eta": 0.5, "xs": xs},
+                          f"tanh_projection returns {y.tolist()} for beta={beta} (0 < beta < 2.2e-308)", signature=SUBNORMAL_SIG)
 
     # (b) subpixel-smoothed projection
     n_cases = ctx.scale(60, 500)
